@@ -34,6 +34,7 @@ def family(rnd, overlap=None, flavour=None, layout=True):
     clash = rnd.random() < 0.6            # same glyph names in several fonts
     gdef_all = rnd.random() < 0.7
     gdef_family = rnd.random() < 0.6
+    mixed_fmt = base == 0xE100 and rnd.random() < 0.65   # BMP alphabets; some fonts add one supplementary character
     suffix = clash and rnd.random() < 0.5  # some glyph names already look like the merger's own "X.N" renames
     req_family = layout and rnd.random() < 0.35   # fonts may carry a script of their own with a REQUIRED feature
     fonts = []
@@ -83,10 +84,20 @@ def family(rnd, overlap=None, flavour=None, layout=True):
                 uid += 1
                 g["uid"] = uid
                 g["adv"] = 180 + 19 * (uid % 31)
-        if ttf and rnd.random() < 0.5 and len(mapped) >= 2:
+        if ttf and rnd.random() < 0.6 and len(mapped) >= 2:
             uid += 1
             glyphs.append({"name": "%scomp" % prefix, "cp": base + 0x40 * i + 0x30, "uid": uid, "adv": 640,
                            "kind": "composite", "parts": [(mapped[0], 0, 0), (mapped[1], 300, 40)]})
+            if rnd.random() < 0.6 and len(mapped) >= 3:
+                # composite of a composite, scaled
+                uid += 1
+                glyphs.append({"name": "%scomp2" % prefix, "cp": base + 0x40 * i + 0x32, "uid": uid, "adv": 700,
+                               "kind": "composite", "parts": [("%scomp" % prefix, 40, 10, 0.75), (mapped[2], 420, 0)]})
+        if mixed_fmt and rnd.random() < 0.5:
+            # this font alone needs a format-12 subtable; the others stay format-4 only
+            uid += 1
+            glyphs.append({"name": "%sastral" % prefix, "cp": 0xF2000 + 0x40 * i, "uid": uid, "adv": 777, "kind": "simple"})
+            spec["cmap12"] = True
         fonts.append(spec)
     return {"upem": upem, "ttf": ttf, "overlap": overlap, "clash": clash, "fonts": fonts}
 
@@ -114,6 +125,14 @@ def _layout(rnd, spec, mapped, prefix, pool, want_gdef, own=None):
         lines.append("languagesystem latn TRK;")
         langs["latn"] = ["TRK "]
     tags = []
+    if rnd.random() < 0.35:
+        # left-over lookups no feature refers to, placed before the live ones
+        o1 = mapped[0]
+        if rnd.random() < 0.7:
+            lines.append("lookup ORPHS { sub %s by %s; } ORPHS;" % (o1, new(o1 + ".orph")))
+        if rnd.random() < 0.6:
+            lines.append("lookup ORPHP { pos %s %s %d; } ORPHP;" % (o1, mapped[1], -rnd.randrange(5, 50)))
+        spec["orphans"] = True
     a, b = mapped[0], mapped[1]
     c = mapped[2] if len(mapped) > 2 else mapped[0]
     d = mapped[3] if len(mapped) > 3 else mapped[1]
@@ -197,8 +216,10 @@ def build(spec):
         for g in spec["glyphs"]:
             if g["kind"] == "composite":
                 pen = TTGlyphPen(built)
-                for name, dx, dy in g["parts"]:
-                    pen.addComponent(name, (1, 0, 0, 1, int(dx * upem / 1000), int(dy * upem / 1000)))
+                for part in g["parts"]:
+                    name, dx, dy = part[:3]
+                    sc = part[3] if len(part) > 3 else 1
+                    pen.addComponent(name, (sc, 0, 0, sc, int(dx * upem / 1000), int(dy * upem / 1000)))
                 built[g["name"]] = pen.glyph()
         fb.setupGlyf(built)
         glyf = fb.font["glyf"]
